@@ -23,6 +23,7 @@ fn main() {
         "C22" => c22::main(args),
         "SVDUMP" => dump::main(args),
         "SVDIFF" => dump::diff(args),
+        "SVNEUT" => dump::neut(args),
         "SVSELF" => match svref::selftest::self_test() {
             Ok(n) => println!("svref self-test ok: {n} groups"),
             Err(e) => {
